@@ -73,6 +73,11 @@ pub fn gen_cmd(rng: &mut Rng, w: &CliWorld) -> Cmd {
       _ => {}
     }
   }
+  // `--json` together with `-U` prints the fixes as JSON and writes nothing; files without a fix
+  // then contribute an empty item to the printer
+  if cmd.is_scan && !cmd.inspect && matches!(cmd.mode.as_str(), "stream" | "compact" | "pretty") && rng.chance(0.15) {
+    cmd.args.push(s("-U"));
+  }
   // `--globs`: later globs override earlier ones
   if rng.chance(0.12) {
     let exts: Vec<String> = {
@@ -470,6 +475,14 @@ pub fn eval_plan(env: &Env, w: &CliWorld, cmd: &Cmd, plan: &Plan, baselines: &mu
     };
     if let Some(f) = &b.failed {
       return Err(format!("baseline for {d} failed: {f}"));
+    }
+    // "non-UTF-8, empty or oversized files are skipped": whatever the thread count, no part of
+    // such a file may be reported
+    if fired.is_none() && !b.records.is_empty() {
+      if let Some(wf) = w.files.iter().find(|f| f.path == *d && matches!(f.kind.as_str(), "non_utf8" | "empty" | "oversize" | "oversize_mb")) {
+        po.violation = viol("INELIGIBLE-FILE-REPORTED", format!("{d} is a {} file and has to be skipped, but scanning it reports {} record(s), e.g. {}", wf.kind, b.records.len(), clip(&b.records[0])));
+        return Ok(po);
+      }
     }
     expected.extend(b.records.iter().cloned());
     if was_discovered {
